@@ -95,6 +95,15 @@ STATEMENTS = [
     'x = {LN}; y = x; push(y, {N}); x', 'x = {D}; y = x; y["q"] = {N}; [x, y]', 'x = {LL}; y = x[{I}]; push(y, {N}); x',
     'x = {N}\ny = x + {N}\n[x, y]', 'x = {LN};; y = {N};\nx + [y]', 'x = [{N}, {S}]; x[0] = x[1]; x', 'x = ⟦"a": {LN}⟧; x["a"][{I}] = {N}; x',
     'x = {N}; x = x + x; x = x * x; x', 'len = {N}; len + 1', 'l = {LN}; l', 'x = {LN}; x[{I}] = 1', 'x = {D}; x[{K}] += 1',
+    'mk = a => (b => a + b); add = mk(1); a = {N}; add({N})', 'mk = a => (b => a + b); add = mk({N}); add(5)',
+    'g = (a, h) => h(0); f = a => g(100, b => a + b); f({N})', 'mk = a => (b => a + b); mk({N})({N})' if False else 'mk = a => map([1, 2], b => a + b); mk({N})',
+    'fact = k => 1 if k < 2 else fact(k - 1) * k; fact({I})', 'fib = k => k if k < 2 else fib(k - 1) + fib(k - 2); fib(6) + {N}',
+    'f = v => map([v, v + 1], w => f(w - 2) if w > 1 else w); f(2)', 'x = [len({S}), 5]; x[0] /= len({S}) + 1; x', 'x = [len({S}), 5]; x[0] /= len({S}); x', 'x = [len({LN})]; x[0] /= len("abc"); x[0] + 1',
+    'x = ⟦"k": len({S})⟧; x["k"] /= len("ab"); x', 'x = len({S}); x /= len("abc"); x + 1', 'x = len({S}) / len("abc"); [x, x * 3]',
+    'x = ⟦"k": len({S})⟧; x["k"] /= len({LN}) + 1; x', 'x = len({S}); x /= len({S}) + 1; x', 'x = [len({S})]; x[0] -= len({S}); x[0] *= 2; x',
+    'x = len({LN}); x *= x; x += len({S}); x', 'x = None; x', 'x = None; y = x; [x, y, x == None]', 'f = v => v == None; f(None)',
+    '[1, None] | map(v => "<" + v)', 'x = [1]; r = x.push(2); "r=" + r', 'x = ⟦"a": None⟧; get(x, "a", 7)', 'x = ⟦"a": None⟧; x["a"]',
+    'get(⟦"a": 0⟧, "a", {N})', 'get(⟦"a": False⟧, "a", {S})', 'x = False; x or {N}', 'x = 0; x', 'x = ""; x + {S}',
     'u_undefined + {N}', '{N} + u_undefined', 'f_undefined({N})', '{B} or u_undefined', '{B} and f_undefined(1)', 'u_undefined += {N}',
     '[{N}, {LN}[9]]', '{D}["missing"]', 'pop([])', '⟦"a": 1⟧["a"] + {D}[{K}]',
 ]
